@@ -29,6 +29,7 @@ Act(e) ==
       [] e.label = "dlopen" -> Dlopen(p)
       [] e.label = "orphan" -> OrphanCcEnd(p)
       [] e.label = "crash" -> Crash(p, e.kill)
+      [] e.label = "cckill" -> CcKilled(p)
       [] OTHER -> FALSE
 
 \* observation of the file system after the step
@@ -48,6 +49,7 @@ EndOK(e) == \A p \in Procs :
     LET r == e.results[p] IN
     CASE pc[p] = "done" -> (got[p] = "ok" /\ r = "ok")     \* worked and returned the reference value
       [] pc[p] = "dead" -> r = "dead"
+      [] pc[p] = "failed" -> r = "error"      \* its compiler was killed: compile_model raised
       [] pc[p] = "idle" -> r = "idle"
       [] OTHER -> FALSE
 
